@@ -16,10 +16,11 @@ func init() {
 			Property: "C01",
 			Rule: "every YarnCore program of the families F1 (control skeletons: line, option group with bodies, if/elseif/else, set, jump, stop over 1-3 nodes), " +
 				"F2 (nestings of option groups and ifs to depth 3 with lines before, inside and after every body), F3 (F1 plus declare, call, command, jump by expression) " +
+				"HUB (one jump-by-expression statement re-executed three times with another destination each time: 7 destination expressions over variables x 3 placements x 2 room orders), F1-layout (the F1 family under CRLF / CR / tab layouts with a blank, comment or whitespace-only line before every body line), ARGS (every argument of Next at steps that do not follow a choice) " +
 				"and R (every distribution of the nodes over readers) up to the statement bound, times every choice sequence, executed on a fresh real runner in lock-step with the reference interpreter; " +
 				"a case is one (program, path); non-trivial = the path contains at least one choice, jump, if or stop",
 			StatesMean:  "runner states visited = (program, trace prefix) pairs; transitions = real Next calls compared with the model",
-			Assumptions: []string{"small-scope hypothesis: programs beyond the statement bound are not explored", "canonical layout (layout is C08's subject)", "reference interpreter (internal/yarncore/interp.go) is the specification of Yarn's sequential semantics"},
+			Assumptions: []string{"small-scope hypothesis: programs beyond the statement bound are not explored", "canonical layout except in F1-layout (layout is C08's subject)", "reference interpreter (internal/yarncore/interp.go) is the specification of Yarn's sequential semantics"},
 		},
 		QuickBudget: 70 * time.Second, ThoroughBudget: 14 * time.Minute, CrashIsViolation: true,
 		Run: runC01,
@@ -95,6 +96,29 @@ func runC01(ctx *report.Ctx) {
 			return
 		}
 		walkProgram(ctx, c, "F1", p, stdHost, wo, nil)
+	})
+
+	// F1-layout: the flow of a program is that of its statements however the script is laid out: the F1 family once
+	// more (single node), under three legal but unusual layouts (CRLF / CR line ends, tab indentation, a blank line,
+	// a whitespace-only line or a comment line before every body line)
+	ctx.Bound("F1-layout", "F1 alphabet, <=3 statements in one node plus a target, x {CRLF + blank line before every line, CR + indented comment lines, tabs + whitespace-only lines}")
+	part(ctx, "F1-layout", -1, func(c *explore.Chooser) {
+		g := &progGen{c: c, rem: 3, kinds: []string{"line", "opts", "if", "setT", "jump", "stop"}, maxDepth: 2, maxOpts: 2, maxCl: 2, conds: condsF, extraTargets: []string{"Z"}}
+		p := g.program(1)
+		p.Nodes = append(p.Nodes, &yc.Node{Title: "Z", Body: []*yc.Stmt{yc.Line("inZ")}})
+		which := c.Choose(3, "layout")
+		if !c.Mine() {
+			return
+		}
+		lay := []*yc.Layout{{EOL: "\r\n"}, {EOL: "\r"}, {Unit: "\t"}}[which]
+		filler := []string{"", "        // note", "  "}[which]
+		lay.Gaps = map[int]map[int][]string{0: {}}
+		for i, ln := range yc.Lines(p, lay)[0] {
+			if ln.InBody {
+				lay.Gaps[0][i] = []string{filler}
+			}
+		}
+		walkProgram(ctx, c, "F1-layout", p, stdHost, wo, lay)
 	})
 
 	// F1c: one generated node (plus a fixed jump target), one more statement
